@@ -306,6 +306,28 @@ def _e2e(res, found):
             found.append(("e2e:%s:%s" % ("accepts-invalid" if accepted else "rejects-valid", classify(nm)),
                           "`cond run --check` with task name %r: exit %r, stderr %r" % (nm, r.exit, r.err_text[:200]),
                           {"name": nm}))
+    # identifiers that reach Conductor through a COND file's `deps` or through the version index obey the same grammar
+    for dep, ok in (("//exp:bench", True), (":top2", True), ("exp:bench", False), ("exp/:bench", False), ("//exp:bench ", False), ("//exp//:bench", False),
+                    ("top2", False), ("////exp:bench", False)):
+        res["evals"] += 1
+        files = {"COND": 'run_command(name="top", run="true", deps=[%r])\nrun_command(name="top2", run="true")\n' % dep, "exp/COND": 'run_command(name="bench", run="true")\n'}
+        root = driver.fresh_project(files, name="e2e3")
+        r = driver.run_cli(["run", "//:top", "--check"], root, git=fakegit.NO_GIT)
+        res["sigs"].add("e2e-dep:%r" % dep)
+        if (r.exit == 0) != ok or r.exc is not None or "Traceback" in r.err_text:
+            found.append(("e2e:dep:%s" % ("accepts-invalid" if r.exit == 0 else "rejects-valid"),
+                          "dependency spelled %r: `cond run --check` exits %r, stderr %r" % (dep, r.exit, r.err_text[:200]), {"dep": dep}))
+    for ident in ("//a/../b:x", "//b:x y", "b:x", "//b:x\n", "//b/:x/", "//b::x", ""):
+        for cmd in (["gc", "-n"], ["archive", "-o", "OUT"]):
+            res["evals"] += 1
+            root = driver.fresh_project({"COND": "", "b/COND": 'run_experiment(name="x", run="true")\n'}, name="e2e4",
+                                        index_rows=[(ident, 5, None, 0)], pre_tree={"cond-out/b/x.task.5/f": "x"})
+            argv = [a if a != "OUT" else os.path.join(root, "o.tar.gz") for a in cmd]
+            r = driver.run_cli(argv, root, git=fakegit.NO_GIT)
+            res["sigs"].add("e2e-row:%r:%s" % (ident, cmd[0]))
+            if r.exit == 0 and r.exc is None:
+                found.append(("e2e:index-row:accepts-invalid", "version index row with identifier %r: `cond %s` accepts it (exit 0)" % (ident, " ".join(cmd)),
+                              {"row": ident, "cmd": cmd[0]}))
     # one grammar for every command: run --check, where and archive accept / reject the same spellings of an identifier
     files = {"COND": 'run_experiment(name="top", run="true")\n', "exp/COND": 'run_experiment(name="bench", run="true")\n'}
     spellings = [("//exp:bench", True), ("exp:bench", True), ("//:top", True), (":top", True), ("//exp/:bench", None), ("exp/:bench", None),
